@@ -582,7 +582,36 @@ func cmdCheck(id string, tier string, seed int64, keep bool) int {
 			if rr.stats != nil && rr.stats.Failure != nil {
 				got = rr.stats.Failure.Class + ": " + rr.stats.Failure.Msg
 			}
-			trouble = append(trouble, fmt.Sprintf("DIVERGENCE: violation class=%s (%s) found by worker %d did not reproduce from its replay file in a fresh process (got: %s)", f.Class, f.Msg, r.idx, got))
+			// Two more attempts with the same file: what the simulator does not decide (a goroutine
+			// cut by the runtime's time slice inside one controller step) can make a violation of the
+			// code under test show in one execution and not in the next.
+			reproduced := false
+			for attempt := 2; attempt <= 3 && !reproduced; attempt++ {
+				r2 := runWorker(wbin, id, 960+r.idx*4+attempt, 1, 1, filepath.Join(scratch, fmt.Sprintf("confirm%d_%d", r.idx, attempt)), nil, []string{"-rapid.failfile=" + ff, "-rapid.nofailfile"}, 10*time.Minute)
+				if r2.stats != nil && r2.stats.Failed && r2.stats.Failure != nil && r2.stats.Failure.Class == f.Class {
+					reproduced = true
+				}
+			}
+			// The oracle did see the violation in the worker: it is reported, with the execution it
+			// was seen in (seed, worker, iteration, minimised case) and the plain statement that the
+			// replay file does not reproduce it every time.  On the unchanged tree this is as much
+			// an alarm as trouble would be; on a changed tree it is the more useful answer.
+			note := "observed by worker %d at rapid seed %d iteration %d; the minimised case did NOT reproduce it in 3 fresh processes (got: %s): the violation depends on something the simulator does not decide - typically a data race that only shows when the runtime's time slice cuts a goroutine inside one controller step"
+			if reproduced {
+				note = "observed by worker %d at rapid seed %d iteration %d; the minimised case reproduced it in one of 3 fresh processes only (first attempt: %s): timing-dependent inside one controller step"
+			}
+			rp := Replay{Property: id, Seed: seed, RapidSeed: r.rapidSeed, Worker: r.idx, Race: r.race, FailFile: string(content), RapidIter: r.stats.FailIter, Failure: f,
+				Note: fmt.Sprintf(note, r.idx, r.rapidSeed, r.stats.FailIter, got)}
+			dir := filepath.Join(verifDir, "replays", id)
+			os.MkdirAll(dir, 0o755)
+			path := filepath.Join(dir, fmt.Sprintf("%s-seed%d-w%d-unstable-%s.json", id, seed, r.idx, sanitize(f.Class)))
+			b, _ := json.MarshalIndent(rp, "", " ")
+			os.WriteFile(path, b, 0o644)
+			fmt.Printf("VIOLATION property=%s replay=%s\n", id, path)
+			fmt.Printf("  class=%s (seen once, replay unstable: see note in the replay file) %s\n", f.Class, f.Msg)
+			fmt.Fprintf(os.Stderr, "verif: note: DIVERGENCE: violation class=%s found by worker %d did not reproduce reliably from its replay file (first attempt got: %s)\n", f.Class, r.idx, got)
+			violations++
+			exit = 1
 			continue
 		}
 		rp := Replay{Property: id, Seed: seed, RapidSeed: r.rapidSeed, Worker: r.idx, Race: r.race, FailFile: string(content), Failure: rr.stats.Failure,
